@@ -79,6 +79,153 @@ func c01Diff(a, b JV, path string) (string, JV, JV, bool) {
 	return "", a, b, false
 }
 
+// c01SrcAt describes the source-grammar construct found at a document path ("$.a.b[0].c")
+func c01SrcAt(d *Defs, doc JV, path string) string {
+	cur := srcRef(d.Root)
+	node := doc
+	desc := []string{}
+	resolve := func(s *Src) *Src {
+		for i := 0; i < 20 && s != nil && s.Kind == SRef; i++ {
+			s = d.lookup(s.Ref)
+		}
+		return s
+	}
+	i := 1 // skip "$"
+	for i < len(path) && cur != nil {
+		cur = resolve(cur)
+		if cur == nil {
+			break
+		}
+		switch path[i] {
+		case '.':
+			j := i + 1
+			for j < len(path) && path[j] != '.' && path[j] != '[' {
+				j++
+			}
+			key := path[i+1 : j]
+			i = j
+			parent := node
+			if child, ok := node.get(key); ok {
+				node = child
+			} else {
+				node = jNull()
+			}
+			switch cur.Kind {
+			case SStruct:
+				var next *Src
+				for _, f := range cur.Fields {
+					if f.Name == key {
+						next = f.Ty
+						flags := ""
+						if f.Required {
+							flags += "required"
+						} else {
+							flags += "optional"
+						}
+						if f.Nullable {
+							flags += "+nullable"
+						}
+						if f.Default != nil {
+							flags += "+default"
+						}
+						desc = append(desc, "field("+flags+")")
+					}
+				}
+				cur = next
+			case SDict:
+				desc = append(desc, "dict")
+				cur = cur.Elem
+			case SOneOfStructs:
+				// the member belongs to one of the branches: continue in the first branch declaring it
+				desc = append(desc, "oneOfStructs")
+				var next *Src
+				tag := ""
+				if tv, ok := parent.get(cur.Disc); ok && tv.K == 's' {
+					tag = tv.S
+				}
+				for _, br := range cur.Branches {
+					if tag != "" && br.Tag != tag {
+						continue
+					}
+					bs := resolve(srcRef(br.Name))
+					if bs == nil || bs.Kind != SStruct {
+						continue
+					}
+					for _, f := range bs.Fields {
+						if f.Name == key && next == nil {
+							next = f.Ty
+							flags := "optional"
+							if f.Required {
+								flags = "required"
+							}
+							if f.Nullable {
+								flags += "+nullable"
+							}
+							if f.Default != nil {
+								flags += "+default"
+							}
+							desc = append(desc, "field("+flags+")")
+						}
+					}
+				}
+				cur = next
+			default:
+				desc = append(desc, "?"+cur.Kind.String())
+				cur = nil
+			}
+		case '[':
+			j := i
+			for j < len(path) && path[j] != ']' {
+				j++
+			}
+			idx := 0
+			fmt.Sscanf(path[i+1:j], "%d", &idx)
+			i = j + 1
+			if node.K == 'a' && idx < len(node.A) {
+				node = node.A[idx]
+			} else {
+				node = jNull()
+			}
+			if cur.Kind == SArray {
+				desc = append(desc, "array")
+				cur = cur.Elem
+			} else {
+				desc = append(desc, "?"+cur.Kind.String())
+				cur = nil
+			}
+		default:
+			i = len(path)
+		}
+	}
+	var leaf func(s *Src, depth int) string
+	leaf = func(s *Src, depth int) string {
+		r := resolve(s)
+		if r == nil {
+			return "?"
+		}
+		switch r.Kind {
+		case SInt:
+			sign := "u"
+			if r.Signed {
+				sign = "s"
+			}
+			return fmt.Sprintf("int%d%s", r.Width, sign)
+		case SNum:
+			return fmt.Sprintf("num%d", r.Width)
+		case SArray, SDict:
+			if depth > 2 {
+				return r.Kind.String()
+			}
+			return r.Kind.String() + "(" + leaf(r.Elem, depth+1) + ")"
+		}
+		return r.Kind.String()
+	}
+	if cur != nil {
+		desc = append(desc, leaf(cur, 0))
+	}
+	return strings.Join(desc, "/")
+}
+
 func c01Class(orig, got JV) string {
 	if (orig.K == 'a' && len(orig.A) == 0 || orig.K == 'o' && len(orig.O) == 0) && got.isNull() {
 		return "empty-collection-dropped"
@@ -92,6 +239,9 @@ func c01Class(orig, got JV) string {
 	}
 	if orig.K == 's' && got.K == 's' {
 		return "string-changed"
+	}
+	if orig.K == 'a' && got.K == 's' {
+		return "array-became-string"
 	}
 	if got.isNull() {
 		return "value-dropped"
@@ -158,7 +308,7 @@ func init() {
 						break
 					}
 					if p, x, y, diff := c01Diff(d, got, "$"); diff {
-						verdict = fmt.Sprintf("FAIL reenc-differs class=%s %s path=%s orig=%s got=%s", c01Class(x, y), info, p, c01Short(x), c01Short(y))
+						verdict = fmt.Sprintf("FAIL reenc-differs class=%s at=%s %s path=%s orig=%s got=%s", c01Class(x, y), c01SrcAt(c.Defs, d, p), info, p, c01Short(x), c01Short(y))
 					} else if err := rv.validate(got); err != nil {
 						verdict = "FAIL reenc-rejected-by-source-schema " + info + " " + labOneLine(shortErr(err))
 					} else if !strings.HasPrefix(strict, "ok ") {
@@ -166,7 +316,7 @@ func init() {
 					} else if canonJSON([]byte(strings.TrimPrefix(strict, "ok "))) != canonJSON([]byte(strings.TrimPrefix(dec, "ok "))) {
 						sgot, _ := parseJV([]byte(strings.TrimPrefix(strict, "ok ")))
 						p, x, y, _ := c01Diff(got, sgot, "$")
-						verdict = fmt.Sprintf("FAIL strict-differs-from-standard %s path=%s standard=%s strict=%s", info, p, c01Short(x), c01Short(y))
+						verdict = fmt.Sprintf("FAIL strict-differs-from-standard at=%s %s path=%s standard=%s strict=%s", c01SrcAt(c.Defs, d, p), info, p, c01Short(x), c01Short(y))
 					}
 				}
 				fmt.Fprintf(out, "godec %s %s %s %s\t%s\t%s\n", c.ID, c.ID, c.Defs.Root, d.sexp(), impl, verdict)
